@@ -1,4 +1,5 @@
 pub mod c01;
+pub mod c07;
 pub mod c09;
 pub mod c10;
 pub mod c11;
@@ -175,6 +176,7 @@ macro_rules! dispatch {
 
 dispatch! {
     "c01" => c01, "C01";
+    "c07" => c07, "C07";
     "c09" => c09, "C09";
     "c10" => c10, "C10";
     "c11" => c11, "C11";
